@@ -8,6 +8,7 @@ import SqiProofs.QuatIndex
 import SqiProofs.QuatDual
 import SqiProofs.QuatCanon
 import SqiProofs.QuatEqual
+import SqiProofs.HnfEchelon
 import SqiGen.QuatAlg
 /- C14 — "Quaternion algebra and lattice arithmetic is exact and canonical".
    Property theorems about the hand model `SqiModel.Quat` (tie H: the model's executable definitions are run
@@ -121,6 +122,13 @@ theorem hnf_shape (g : List Vec4) :
     ∀ r, r < 4 → (hnfCore g).get r r ≠ 0 →
       0 < (hnfCore g).get r r ∧ ∀ c, r < c → c < 4 → 0 ≤ (hnfCore g).get r c ∧ (hnfCore g).get r c < (hnfCore g).get r r :=
   hnfCoreWith_shape SqiProofs.Xgcd.xgcdGmp_spec g
+
+/-- **rank-deficient inputs included**: every output of `ibz_mat_4x8_hnf_core` is in echelon Hermite form — `z` zero
+    columns (z = 4 − rank) followed by pivot columns whose pivots (lowest non-zero entry of the column) are positive, lie in
+    strictly increasing rows, have only zeros to their left in their row and entries in `[0, pivot)` to their right.
+    Together with `hnf_span` (same lattice for every input) this is the full description of the routine on inputs of
+    any rank; uniqueness is proved for full rank only (`hnf_canonical`). -/
+theorem hnf_echelon (g : List Vec4) : IsEchelonHNF (hnfCore g) := hnfCore_echelon g
 
 /-- **`hnf_is_hnf`**: full-rank input ⇒ the output is in Hermite normal form -/
 theorem hnf_is_hnf (g : List Vec4) (hg : g.length ≤ 8) (hfr : FullRank (spanL g)) : IsHNF (hnfCore g) :=
@@ -249,6 +257,10 @@ example : Reduced O0 := by unfold Reduced; decide
     x = (7 + 14i + j + 2ij)/7 in the algebra with p = 7 (the basis `quat_lideal_create_principal` reduces before the HNF) -/
 example : (rightMulMat 7 ⟨7, ⟨7, 14, 1, 2⟩⟩).gcd = 1 ∧
     latReduceDenom ⟨7, rightMulMat 7 ⟨7, ⟨7, 14, 1, 2⟩⟩⟩ = ⟨7, rightMulMat 7 ⟨7, ⟨7, 14, 1, 2⟩⟩⟩ := by decide
+
+/-- non-vacuity of `hnf_echelon` in the rank-deficient case: rank 3 input ⇒ exactly one zero column in front -/
+example : (hnfCore [⟨1, 0, 0, 0⟩, ⟨2, 0, 0, 0⟩, ⟨0, 1, 0, 0⟩, ⟨0, 0, 1, 0⟩]).cols =
+    [⟨0, 0, 0, 0⟩, ⟨1, 0, 0, 0⟩, ⟨0, 1, 0, 0⟩, ⟨0, 0, 1, 0⟩] := by decide
 
 /-- a rank-deficient input really produces a zero diagonal entry (so the hypothesis of `hnf_is_hnf` matters) -/
 example : (hnfCore [⟨1, 0, 0, 0⟩, ⟨2, 0, 0, 0⟩, ⟨0, 1, 0, 0⟩, ⟨0, 0, 1, 0⟩]).get 0 0 = 0 := by decide
